@@ -156,6 +156,11 @@ pub enum Op {
     /// `Operation::DataReplacement` through `Dataset::commit`: the (single, full-schema) data file
     /// of initial fragment `frag` (rows `ids`, physical order) is replaced by a file with new `v`
     ReplaceV { frag: u64, ids: Vec<i64>, salt: u64 },
+    /// `alter_columns`: rename column `from` to `to` (metadata only, `Operation::Project`)
+    RenameColumn { from: String, to: String },
+    /// append written with `execute_uncommitted` and committed with `CommitBuilder::with_detached(true)`:
+    /// must never become visible on the main lineage
+    DetachedAppend { ids: Vec<i64>, salt: u64 },
 }
 
 impl Op {
@@ -177,6 +182,8 @@ impl Op {
             Op::AddColumn { .. } => "add_column",
             Op::DropColumn { .. } => "drop_column",
             Op::ReplaceV { .. } => "data_replacement",
+            Op::RenameColumn { .. } => "rename_column",
+            Op::DetachedAppend { .. } => "detached_append",
         }
     }
     pub fn retries(&self) -> Option<u32> {
@@ -197,7 +204,7 @@ impl Op {
     }
     /// must an Ok result have produced exactly one new version?
     pub fn always_commits(&self) -> bool {
-        !matches!(self, Op::Compact { .. } | Op::OptimizeIndices)
+        !matches!(self, Op::Compact { .. } | Op::OptimizeIndices | Op::DetachedAppend { .. })
     }
     pub fn describe(&self) -> Value {
         match self {
@@ -221,6 +228,8 @@ impl Op {
             Op::AddColumn { name, nullable } => json!({"op":"add_column","name":name,"expr": if *nullable {"w * 2"} else {"id * 2"}}),
             Op::DropColumn { name } => json!({"op":"drop_column","name":name}),
             Op::ReplaceV { frag, ids, salt } => json!({"op":"data_replacement","frag":frag,"ids":ids,"salt":salt}),
+            Op::RenameColumn { from, to } => json!({"op":"rename_column","from":from,"to":to}),
+            Op::DetachedAppend { ids, salt } => json!({"op":"detached_append","ids":ids,"salt":salt}),
         }
     }
     /// does the op address row `id` through a predicate / key (not counting fresh inserts)?
@@ -240,6 +249,9 @@ impl Op {
 #[derive(Clone, Debug, PartialEq)]
 pub struct Model {
     pub cols: Vec<String>,
+    /// base column (index into BASE_COLS) each current column descends from (field identity
+    /// survives a rename); None for computed columns
+    pub origin: Vec<Option<usize>>,
     pub rows: BTreeMap<i64, Row>,
     pub config: BTreeMap<String, String>,
     pub indices: BTreeSet<String>,
@@ -259,6 +271,7 @@ impl Model {
     pub fn new() -> Self {
         Self {
             cols: BASE_COLS.iter().map(|s| s.to_string()).collect(),
+            origin: (0..BASE_COLS.len()).map(Some).collect(),
             rows: BTreeMap::new(),
             config: BTreeMap::new(),
             indices: BTreeSet::new(),
@@ -268,13 +281,18 @@ impl Model {
     fn col(&self, name: &str) -> Option<usize> {
         self.cols.iter().position(|c| c == name)
     }
+    /// current position of base column `name` (by field identity, whatever it is called now)
+    fn base(&self, name: &str) -> Option<usize> {
+        let b = BASE_COLS.iter().position(|c| *c == name)?;
+        self.origin.iter().position(|o| *o == Some(b))
+    }
     /// full base row -> row in the current column layout (missing columns NULL, except the
     /// computed column `x*` which is not part of inserted data and therefore NULL as well)
     fn layout(&self, base: &Row) -> Row {
-        self.cols
+        self.origin
             .iter()
-            .map(|c| match BASE_COLS.iter().position(|b| b == c) {
-                Some(k) => base[k].clone(),
+            .map(|o| match o {
+                Some(k) => base[*k].clone(),
                 None => Cell::Null,
             })
             .collect()
@@ -300,8 +318,8 @@ impl Model {
                 }
             }
             Op::Update { pred, add, set_w, .. } => {
-                let kv = self.col("v");
-                let kw = self.col("w");
+                let kv = self.base("v");
+                let kw = self.base("w");
                 for (id, r) in self.rows.iter_mut() {
                     if !pred.matches(*id) {
                         continue;
@@ -323,9 +341,9 @@ impl Model {
                     let src = gen_row(*id, *salt);
                     if let Some(r) = self.rows.get_mut(id) {
                         // UpdateAll: every source column replaces the target column
-                        for (k, c) in self.cols.iter().enumerate() {
-                            if let Some(b) = BASE_COLS.iter().position(|b| b == c) {
-                                r[k] = src[b].clone();
+                        for (k, o) in self.origin.iter().enumerate() {
+                            if let Some(b) = o {
+                                r[k] = src[*b].clone();
                             }
                         }
                         self.moved.insert(*id);
@@ -340,7 +358,7 @@ impl Model {
             Op::MergeCol { ids, col, salt, .. } => {
                 // the column may have been dropped by an earlier transaction: the rewritten
                 // column data is then invisible
-                let k = self.col(col);
+                let k = self.base(col);
                 let b = BASE_COLS.iter().position(|b| b == col).unwrap();
                 for id in ids {
                     if let Some(r) = self.rows.get_mut(id) {
@@ -362,6 +380,7 @@ impl Model {
                 eff.modified = self.rows.keys().copied().collect();
                 self.rows.clear();
                 self.cols = BASE_COLS.iter().map(|s| s.to_string()).collect();
+                self.origin = (0..BASE_COLS.len()).map(Some).collect();
                 self.indices.clear();
                 self.moved.clear();
                 for id in ids {
@@ -380,8 +399,9 @@ impl Model {
                 if self.col(name).is_some() {
                     return Err(format!("generator: column {name} exists"));
                 }
-                let kw = self.col("w");
+                let kw = self.base("w");
                 self.cols.push(name.clone());
+                self.origin.push(None);
                 for (id, r) in self.rows.iter_mut() {
                     let c = if *nullable {
                         match kw.map(|k| r[k].clone()) {
@@ -397,10 +417,16 @@ impl Model {
             Op::DropColumn { name } => {
                 let k = self.col(name).ok_or("generator: drop of missing column")?;
                 self.cols.remove(k);
+                self.origin.remove(k);
                 for r in self.rows.values_mut() {
                     r.remove(k);
                 }
             }
+            Op::RenameColumn { from, to } => {
+                let k = self.col(from).ok_or("generator: rename of missing column")?;
+                self.cols[k] = to.clone();
+            }
+            Op::DetachedAppend { .. } => {}
             Op::ReplaceV { ids, salt, .. } => {
                 // the whole file is replaced: id/w/s keep their initial values, v is new
                 for id in ids {
@@ -410,11 +436,11 @@ impl Model {
                     if let Some(r) = self.rows.get_mut(id) {
                         let init = gen_row(*id, 0);
                         let newv = gen_row(*id, *salt)[1].clone();
-                        for (k, c) in self.cols.clone().iter().enumerate() {
-                            match c.as_str() {
-                                "v" => r[k] = newv.clone(),
-                                "w" => r[k] = init[2].clone(),
-                                "s" => r[k] = init[3].clone(),
+                        for (k, o) in self.origin.clone().iter().enumerate() {
+                            match o {
+                                Some(1) => r[k] = newv.clone(),
+                                Some(2) => r[k] = init[2].clone(),
+                                Some(3) => r[k] = init[3].clone(),
                                 _ => {}
                             }
                         }
@@ -575,14 +601,16 @@ pub async fn exec_op(ds: Dataset, actor: &Actor, op: &Op) -> lance::Result<Optio
         }
         Op::CreateIndex { col, name } => {
             let mut ds = ds;
-            ds.create_index(
-                &[*col],
-                IndexType::BTree,
-                Some(name.clone()),
-                &ScalarIndexParams::default(),
-                false,
-            )
-            .await?;
+            // index names starting with "bm" ask for a bitmap index, everything else for a btree
+            let (ty, params) = if name.starts_with("bm") {
+                (
+                    IndexType::Bitmap,
+                    ScalarIndexParams::for_builtin(lance_index::scalar::BuiltinIndexType::Bitmap),
+                )
+            } else {
+                (IndexType::BTree, ScalarIndexParams::default())
+            };
+            ds.create_index(&[*col], ty, Some(name.clone()), &params, false).await?;
             Ok(Some(ds.manifest().version))
         }
         Op::OptimizeIndices => {
@@ -616,6 +644,35 @@ pub async fn exec_op(ds: Dataset, actor: &Actor, op: &Op) -> lance::Result<Optio
             let mut ds = ds;
             ds.drop_columns(&[name.as_str()]).await?;
             Ok(Some(ds.manifest().version))
+        }
+        Op::RenameColumn { from, to } => {
+            let mut ds = ds;
+            ds.alter_columns(&[lance::dataset::ColumnAlteration::new(from.clone()).rename(to.clone())])
+                .await?;
+            Ok(Some(ds.manifest().version))
+        }
+        Op::DetachedAppend { ids, salt } => {
+            let rows: Vec<Row> = ids.iter().map(|i| gen_row(*i, *salt)).collect();
+            let batch = rows_to_batch(&rows, &BASE_COLS);
+            let params = WriteParams {
+                auto_cleanup: None,
+                ..actor.write_params(WriteMode::Append)
+            };
+            let dest = Arc::new(ds);
+            let tx = InsertBuilder::new(WriteDestination::Dataset(dest.clone()))
+                .with_params(&params)
+                .execute_uncommitted(vec![batch])
+                .await?;
+            let out = lance::dataset::CommitBuilder::new(WriteDestination::Dataset(dest))
+                .with_detached(true)
+                .with_store_params(actor.store_params())
+                .with_session(actor.session.clone())
+                .execute(tx)
+                .await?;
+            if !lance_table::format::is_detached_version(out.manifest().version) {
+                return Ok(Some(out.manifest().version));
+            }
+            Ok(None)
         }
         Op::ReplaceV { frag, ids, salt } => {
             use lance::dataset::transaction::{DataReplacementGroup, Operation};
@@ -1838,7 +1895,7 @@ pub async fn aftermath(out: &HistoryOutcome, sc: &SerialCheck) -> (Vec<Finding>,
     let mut findings = vec![];
     let mut rows = 0u64;
     let Some(mut model) = sc.states.get(&sc.final_version).cloned() else { return (findings, 0) };
-    if model.rows.is_empty() || !model.cols.iter().any(|c| c == "v") {
+    if model.rows.is_empty() || !model.cols.iter().any(|c| c == "v") || !model.cols.iter().any(|c| c == "id") {
         return (findings, 0);
     }
     let a0 = Actor::new(out.world.new_actor(0));
